@@ -16,6 +16,7 @@ getter & setter functions in `chempy.units`).
 
 """
 
+import keyword
 from functools import reduce
 from operator import mul
 import sys
@@ -219,6 +220,8 @@ def unit_registry_to_human_readable(unit_registry):
             if len(dim_list) != 1:
                 raise TypeError("Compound units not allowed: {}".format(dim_list))
             u_symbol = dim_list[0].symbol
+            if keyword.iskeyword(u_symbol):  # e.g. "as" (attosecond) cannot be parsed back
+                u_symbol = dim_list[0].name
             new_registry[k] = float(unit_registry[k]), u_symbol
     return new_registry
 
